@@ -11,8 +11,9 @@ machine's memory equals the recovered buffer."""
 import schedprop
 import schedcommon as sc
 
-# filled in by the lead ({file: [theorem names]})
-THEOREMS = {}
+import json, os
+import seqextra
+THEOREMS = {"C05.v": json.load(open(os.path.join(os.path.dirname(__file__), "_theorems.json")))["C05"]}
 
 
 def jobs(ctx, rel):
@@ -28,10 +29,20 @@ def jobs(ctx, rel):
 def run(ctx):
     return schedprop.run(
         ctx, THEOREMS, "[C05]", jobs,
+        "Coq theorems on machine M1: for EVERY reachable state (any schedule, any number of threads, any calls in flight = every "
+        "crash point between any two writes), recovering the persistent metadata cannot index out of bounds, yields consistent "
+        "metadata, keeps every block returned by a completed allocation and not passed to a started free allocated and freeable "
+        "at its original order, and a frame is allocated after recovery exactly if it is held or touched by an in-flight call "
+        "(`touched` is exact; it contains the stale-split window of partial frees of huge frames, an observation documented in "
+        "DESIGN.md); rebuilding the upper layer over the recovered metadata gives the accounting invariant, so fast and exact "
+        "counts agree; for every frame count (free-all and allocate-all starts); at quiescence recovery is the identity. "
         "Every memory state of every explored interleaving of the lower allocator is a crash point: the persistent buffer is "
         "recovered by the compiled `Lower::recover` and judged against the ownership specification (abs, lower_invb, "
         "spec_put_enabled) evaluated by the extracted Coq definitions, with the blocks held / in flight at that point.",
         "crash points: after the prologue and after every write (successful CAS) to the lower buffer of every schedule (as "
         "C01: at most P preemptions, P = 2 quick, 3-4 thorough, + PCT; whole and partial last trees); evaluations = steps "
         "replayed; snapshots are counted per suite",
-        "compiled Lower::get/put + Lower::recover at every write vs machine M1 and lower_recover (CORR), crash oracle (ORACLE [C05])")
+        "compiled Lower::get/put + Lower::recover at every write vs machine M1 and lower_recover (CORR), crash oracle (ORACLE [C05])",
+        # sequential crash points: crash + recover at quiescent points of sequential histories through the whole allocator
+        extra=seqextra.seq_suites([dict(suite="recover", histories=48, ops=120), dict(suite="recover", histories=1500, ops=150)],
+                                  corr=("result", "ents", "rows", "trees", "stats"), oracle=("C05", "C04", "C02", "C09")))
